@@ -620,6 +620,362 @@ def kernel_misc(ctx: Ctx, out: Outcome, diagram) -> None:
                 out.disagree(stream, case, iv, a)
 
 
+# ------------------------------------------------------------------ (a2) edge chain: generic_factory / snaptarget
+
+
+class EdgeRig:
+    """The real `aird._edge_factories.generic_factory` on a two-box diagram built from plain numbers: the stored
+    layout goes through the same XML attributes the parser reads (`sourceAnchor/@id`, `bendpoints/@points`,
+    `ownedStyle/@routingStyle`)."""
+
+    def __init__(self, diagram):
+        from lxml import etree
+
+        from capellambse.aird import _common as C
+        from capellambse.aird import _edge_factories as EF
+
+        self.diagram, self.etree, self.C, self.EF = diagram, etree, C, EF
+
+    def box(self, b, port, labels, uuid):
+        d = self.diagram
+        return d.Box((float(b[0]), float(b[1])), (float(b[2]), float(b[3])), uuid=uuid, port=port,
+                     floating_labels=[d.Box((float(l[0]), float(l[1])), (float(l[2]), float(l[3]))) for l in labels])
+
+    def edge(self, c, v=(0, 0)):
+        """-> ('r', [(x, y), ...]) | ('e', kind); `v` translates both boxes and their labels"""
+        mv = lambda b: (b[0] + v[0], b[1] + v[1], b[2], b[3])  # noqa: E731
+        dg = self.diagram.Diagram("t")
+        dg.add_element(self.box(mv(c["src"]), c["sport"], [mv(l) for l in c["slabels"]], "S"), False)
+        dg.add_element(self.box(mv(c["tgt"]), c["tport"], [mv(l) for l in c["tlabels"]], "T"), False)
+        de = self.etree.Element("edges", {"element": "E", "source": "S", "target": "T"})
+        if c["anchor"] is not None:
+            self.etree.SubElement(de, "sourceAnchor", {"id": f"({float(c['anchor'][0])!r}, {float(c['anchor'][1])!r})" + c.get("anchor_suffix", "")})
+        bp = self.etree.SubElement(de, "bendpoints", {self.C.ATT_XMT: "notation:RelativeBendpoints"})
+        if c["rel"] is not None:
+            # the code reads the first two numbers of each item (source-relative); the other two are the target-relative pair
+            bp.set("points", "$".join(f"[{x}, {y}, {x - 7}, {y + 3}]" for x, y in c["rel"]))
+        dge = self.etree.Element("ownedDiagramElements")
+        st = self.etree.SubElement(dge, "ownedStyle")
+        if c["style"] != "oblique":
+            st.set("routingStyle", c["style"])
+        seb = self.C.SemanticElementBuilder(target_diagram=dg, diagram_tree=None, data_element=de, melodyloader=None, fragment=None,
+                                            diag_element=dge, styleclass=None, melodyobjs=[])
+        try:
+            e = self.EF.generic_factory(seb)
+        except (AssertionError, ValueError, ZeroDivisionError, IndexError) as ex:
+            return ("e", err_kind(ex))
+        return ("r", [(pt.x, pt.y) for pt in e])
+
+    def snapend(self, c, v=(0, 0)):
+        """the real `snaptarget` on a plain list of points; `c["pts"]` is outermost-first, `c["end"]` says which end
+        of the list that is in the call (`first`: i=0, next_i=1; `last`: i=-1, next_i=-2)"""
+        V = self.diagram.Vector2D
+        b = c["box"]
+        box = self.diagram.Box((float(b[0] + v[0]), float(b[1] + v[1])), (float(b[2]), float(b[3])), port=c["port"])
+        pts = [V(float(x + v[0]), float(y + v[1])) for x, y in c["pts"]]
+        if c["end"] == "last":
+            pts.reverse()
+        try:
+            self.EF.snaptarget(pts, *((0, 1) if c["end"] == "first" else (-1, -2)), box, routingstyle=None if c["style"] == "oblique" else c["style"])
+        except (AssertionError, ValueError, ZeroDivisionError, IndexError) as ex:
+            return ("e", err_kind(ex))
+        if c["end"] == "last":
+            pts.reverse()
+        return ("r", [(pt.x, pt.y) for pt in pts])
+
+
+EDGE_BRANCHES = (
+    ["pts:collapsed", "pts:stored", "route:oblique", "route:manhattan", "route:tree"]
+    + [f"{end}.{t}" for end in ("tgt", "src") for t in (
+        "obl:keep", "obl:resnap:third-point", "obl:resnap:two-points", "obl:zero-direction", "obl:snapped-onto-source",
+        "man:aligned:h", "man:aligned:v", "man:projected:h", "man:projected:v", "man:h:direct", "man:h:bend", "man:v:direct", "man:v:bend",
+        "tree:direct", "tree:bend")]
+)
+# arms of the model that exist for totality only: `rel = []` (the XML default supplies two points), error results of the
+# snaps (excluded for proper boxes by `snap_total`), fewer than two points (`Edge.__init__` raises first)
+EDGE_BRANCHES_UNREACHABLE = ["pts:none-stored", "pts:route-error", "obl:first-snap-error", "man:snap-error", "tree:snap-error", "end:too-few-points"]
+
+
+def end_class(box, port, end_pt, style, inner, eq_source=None) -> str | None:
+    """Monitor for one edge end: `end_pt` must lie on the outline of `box` (tree: on its top or bottom side).
+    `inner` (the neighbouring point after snapping) / `eq_source` (end point == its neighbour before snapping, where
+    the caller knows the input) only name the class of a failing input."""
+    bx, by, bw, bh = (F(v) for v in box)
+    x, y = F(end_pt[0]), F(end_pt[1])
+    tol = TOL * max(1, abs(bx) + bw, abs(by) + bh)
+    if style == "tree":
+        if on_top_or_bottom(bx, by, bw, bh, x, y, tol):
+            return None
+        if eq_source or (eq_source is None and inner is not None and abs(F(inner[0]) - x) <= tol and abs(F(inner[1]) - y) <= tol):
+            return "point-eq-source"  # (seen from outside: the inserted bend coincides with the end, `point -+ (1, 0)`)
+        if port:
+            return "port"
+        if not (bx <= x <= bx + bw):
+            return "point-x-outside-box"
+        return "other"
+    return None if on_outline(bx, by, bw, bh, x, y, tol) else "off-outline"
+
+
+def pts_close(a, b, tol=TOL) -> bool:
+    return len(a) == len(b) and all(vclose(p, m, tol) for p, m in zip(a, b))
+
+
+def compare_points(out: Outcome, stream: str, case, res, ans, prefix: str) -> None:
+    """correspondence for a list of points (edge chain); `ans` is the driver's answer object"""
+    if "err" in ans:
+        out.disagree(stream, case, res, ans)
+        return
+    a = ans["ok"]
+    for t in a.get("br", []):
+        out.hit(f"{prefix}:{t}")
+    if "e" in a or res[0] == "e":
+        if not ("e" in a and res[0] == "e" and a["e"] == res[1]):
+            out.disagree(stream, case, res, a)
+        return
+    mp = [fr4(p) for p in a["pts"]]
+    if len(mp) == len(res[1]) and all(exact(p, m) for p, m in zip(res[1], mp)):
+        out.hit("agree:exact")
+    elif pts_close(res[1], mp):
+        out.hit("agree:within-1e-9")
+    elif a.get("tie") or a.get("near"):
+        out.hit(f"{prefix}:declared-tie-not-compared")
+    else:
+        out.disagree(stream, case, [list(p) for p in res[1]], [[str(m[0]), str(m[1])] for m in mp])
+
+
+def edge_req(c) -> dict:
+    anchor = c["anchor"] if c["anchor"] is not None else (F(1, 2), F(1, 2))
+    rel = c["rel"] if c["rel"] is not None else [(0, 0), (0, 0)]
+    return {"op": "edge", "src": [q(v) for v in c["src"]], "sport": c["sport"], "slabels": [[q(v) for v in l] for l in c["slabels"]],
+            "tgt": [q(v) for v in c["tgt"]], "tport": c["tport"], "tlabels": [[q(v) for v in l] for l in c["tlabels"]],
+            "anchor": [q(anchor[0]), q(anchor[1])], "rel": [[x, y] for x, y in rel], "style": c["style"]}
+
+
+def edge_cases(ctx: Ctx) -> list[dict]:
+    """inputs of `generic_factory` for an edge between two boxes; boxes on the integer / half-integer grid so that the
+    decoded bend points can be placed exactly on the boundaries the code distinguishes"""
+    rng = ctx.rng
+    cases: list[dict] = []
+    anchors = [(F(1, 2), F(1, 2)), (F(0), F(0)), (F(1), F(1)), (F(1, 4), F(3, 4)), (F(1, 2), F(0)), (F(3, 4), F(1, 2))]
+
+    def rbox(port):
+        if port:
+            return (F(rng.randint(-60, 60)), F(rng.randint(-60, 60)), F(10), F(10))
+        return (F(rng.randint(-60, 60)), F(rng.randint(-60, 60)), F(4 * rng.randint(1, 15)), F(4 * rng.randint(1, 12)))
+
+    def special(b):
+        """points that sit on the boundaries of the case distinctions around box b"""
+        x, y, w, h = b
+        t = F(rng.randint(0, 4), 4)
+        k = rng.choice([1, 2, 5, 30])
+        return [(x + w / 2, y + h / 2), (x, y), (x + w, y), (x, y + h), (x + w, y + h), (x + t * w, y), (x, y + t * h), (x + w, y + t * h),
+                (x + t * w, y + h), (x + t * w, y + (1 - t) * h), (x - k, y + h / 2), (x + w + k, y + t * h), (x + t * w, y - k), (x + w / 2, y + h + k),
+                (x - k, y - k), (x + w + k, y + h + k), (x + w + k, y - k), (x + rng.randint(-80, 80), y + rng.randint(-80, 80))]
+
+    def rel_for(abs_pts, src, slabels, anchor):
+        # refpos = bounds.pos + bounds.size @ anchor; stored numbers are integers: round what is asked for
+        minx = min([src[0]] + [l[0] for l in slabels]); miny = min([src[1]] + [l[1] for l in slabels])
+        maxx = max([src[0] + src[2]] + [l[0] + l[2] for l in slabels]); maxy = max([src[1] + src[3]] + [l[1] + l[3] for l in slabels])
+        rx, ry = minx + (maxx - minx) * anchor[0], miny + (maxy - miny) * anchor[1]
+        return [(math.floor(px - rx), math.floor(py - ry)) for px, py in abs_pts]
+
+    for n in range(ctx.pick(1400, 14000)):
+        sport, tport = rng.random() < 0.25, rng.random() < 0.25
+        src, tgt = rbox(sport), rbox(tport)
+        rel_pos = rng.choice(["any", "any", "same-centre", "aligned-x", "aligned-y", "overlap", "touch"])
+        if rel_pos == "same-centre":
+            tgt = (src[0] + src[2] / 2 - tgt[2] / 2, src[1] + src[3] / 2 - tgt[3] / 2, tgt[2], tgt[3])
+        elif rel_pos == "aligned-x":
+            tgt = (src[0] + src[2] / 2 - tgt[2] / 2, tgt[1], tgt[2], tgt[3])
+        elif rel_pos == "aligned-y":
+            tgt = (tgt[0], src[1] + src[3] / 2 - tgt[3] / 2, tgt[2], tgt[3])
+        elif rel_pos == "overlap":
+            tgt = (src[0] + src[2] / 2, src[1] + src[3] / 4, tgt[2], tgt[3])
+        elif rel_pos == "touch":
+            tgt = (src[0] + src[2], src[1], tgt[2], tgt[3])
+        slabels = [(src[0] - rng.randint(0, 30), src[1] + rng.randint(-20, 20), F(rng.randint(1, 40)), F(rng.randint(1, 12)))] if rng.random() < 0.3 else []
+        tlabels = [(tgt[0] + rng.randint(-30, 30), tgt[1] - rng.randint(0, 20), F(rng.randint(1, 40)), F(rng.randint(1, 12)))] if rng.random() < 0.2 else []
+        anchor = rng.choice(anchors) if rng.random() < 0.85 else None
+        an = anchor or (F(1, 2), F(1, 2))
+        style = STYLES[n % 3]
+        kind = rng.choice(["default", "single", "all-equal", "general", "boundary", "boundary", "boundary", "two-point"])
+        if kind == "default":
+            rel = None
+        elif kind == "single":
+            rel = [(rng.randint(-50, 50), rng.randint(-50, 50))]
+        elif kind == "all-equal":
+            rel = [(rng.randint(-50, 50), rng.randint(-50, 50))] * rng.randint(2, 4)
+        elif kind == "general":
+            rel = [(rng.randint(-120, 120), rng.randint(-120, 120)) for _ in range(rng.randint(2, 6))]
+        else:
+            sp, tp = special(src), special(tgt)
+            first, last = rng.choice(sp), rng.choice(tp)
+            if kind == "two-point":
+                pts = [first, last]
+            else:
+                second = rng.choice([rng.choice(sp), (first[0], first[1] + rng.choice([-30, 30])), (first[0] + rng.choice([-30, 30]), first[1]), first,
+                                     (src[0] + src[2] / 2, src[1] + src[3] / 2)])
+                prelast = rng.choice([rng.choice(tp), (last[0], last[1] + rng.choice([-30, 30, 1])), (last[0] + rng.choice([-30, 30, 1]), last[1]), last,
+                                      (tgt[0] + tgt[2] / 2, tgt[1] + tgt[3] / 2), (last[0] + 25, last[1] + rng.choice([-2, 0, 3]))])
+                pts = rng.choice([[first, second, prelast, last], [first, prelast, last], [first, second, last]])
+            rel = rel_for(pts, src, slabels, an)
+        cases.append({"src": src, "sport": sport, "slabels": slabels, "tgt": tgt, "tport": tport, "tlabels": tlabels, "anchor": anchor,
+                      "anchor_suffix": " custom" if rng.random() < 0.1 else "", "rel": rel, "style": style, "gen": kind, "pos": rel_pos})
+    return cases
+
+
+def case_json(c: dict) -> dict:
+    """replayable form of an edge / snap-end case (exact numbers as strings)"""
+    def enc(v):
+        if isinstance(v, F):
+            return str(v)
+        if isinstance(v, (list, tuple)):
+            return [enc(x) for x in v]
+        return v
+    return {k: enc(v) for k, v in c.items()}
+
+
+def case_unjson(c: dict) -> dict:
+    def dec(v):
+        if isinstance(v, str) and v and (v[0].isdigit() or v[0] == "-"):
+            return F(v)
+        if isinstance(v, list):
+            return [dec(x) for x in v]
+        return v
+    return {k: (dec(v) if k in ("src", "tgt", "slabels", "tlabels", "anchor", "box", "pts", "v") else v) for k, v in c.items()}
+
+
+def edge_monitor(rig: EdgeRig, c: dict, res, v) -> list[tuple[str, str]]:
+    """the statement on one `generic_factory` result: no exception, finite, both ends on the outline of what they
+    connect (tree: top/bottom side), and the same edge translated by `v` when both boxes are translated by `v`"""
+    st = c["style"]
+    if res[0] == "e":
+        return [(f"generic_factory|{st}|raises|{res[1]}", f"generic_factory raised {res[1]}")]
+    pts = res[1]
+    bad = []
+    if any(not math.isfinite(cc) for p in pts for cc in p):
+        return [(f"generic_factory|{st}|non-finite", f"points {pts}")]
+    if len(pts) < 2:
+        return [(f"generic_factory|{st}|fewer-than-two-points", f"points {pts}")]
+    for which, box, port, seq in (("source", c["src"], c["sport"], pts), ("target", c["tgt"], c["tport"], pts[::-1])):
+        cls = end_class(box, port, seq[0], st, seq[1])
+        if cls is not None:
+            sig = f"generic_factory|tree|end-off-side|{cls}" if st == "tree" else f"generic_factory|{st}|end-off-outline"
+            bad.append((sig, f"{which} end {seq[0]} of {pts} not on the {'top/bottom side' if st == 'tree' else 'outline'} of "
+                             f"{[str(x) for x in box]}{' (port)' if port else ''}"))
+    moved = rig.edge(c, v)
+    if moved[0] == "e":
+        bad.append((f"generic_factory|{st}|translated|raises|{moved[1]}", f"translated by {v}: raised {moved[1]}"))
+    elif not (len(moved[1]) == len(pts) and all(abs(F(a[0]) + v[0] - F(b[0])) <= PTOL and abs(F(a[1]) + v[1] - F(b[1])) <= PTOL for a, b in zip(pts, moved[1]))):
+        bad.append((f"generic_factory|{st}|translated|not-equivariant", f"{pts} translated by {v} became {moved[1]}"))
+    return bad
+
+
+def snapend_cases(ctx: Ctx) -> list[dict]:
+    """`snaptarget` on explicit points: an exhaustive small lattice (every relative position of end point, its
+    neighbour and the box that the code distinguishes) and seeded dyadic cases; both ends of the list"""
+    rng = ctx.rng
+    cases = []
+    combos = [("oblique", False), ("manhattan", False), ("manhattan", True), ("tree", False), ("tree", True)]
+    boxes = [(F(0), F(0), F(2), F(2)), (F(1), F(0), F(2), F(1))] + ([(F(0), F(1), F(1), F(2)), (F(0), F(0), F(3), F(2))] if ctx.thorough else [])
+    lo, hi = (-1, 3)
+    grid = [(F(x), F(y)) for x in range(lo, hi + 1) for y in range(lo, hi + 1)]
+    for b in boxes:
+        for style, port in combos:
+            for e in grid:
+                for nx in grid:
+                    third = rng.choice(grid)
+                    for pts in ([e, nx], [e, nx, third]):
+                        cases.append({"box": b, "port": port, "style": style, "pts": pts, "end": "first" if (len(cases) % 2 == 0) else "last", "gen": "lattice"})
+    for _ in range(ctx.pick(1500, 15000)):
+        b = (dyadic(rng), dyadic(rng), abs(dyadic(rng, 0, 40)) + F(1, rng.choice(DY)), abs(dyadic(rng, 0, 40)) + F(1, rng.choice(DY)))
+        x, y, w, h = b
+        t = F(rng.randint(0, 8), 8)
+        sp = [(x + w / 2, y + h / 2), (x, y), (x + w, y + h), (x + t * w, y), (x + w, y + t * h), (x + t * w, y + (1 - t) * h), (x - dyadic(rng, 0, 9), y + t * h),
+              (x + t * w, y + h + dyadic(rng, 0, 9)), (dyadic(rng), dyadic(rng)), (x + w + 3, y - 2)]
+        e = rng.choice(sp)
+        k = F(rng.choice([-9, -2, -1, 1, 2, 7]), rng.choice([1, 2, 4]))
+        nx = rng.choice([e, (e[0] + k, e[1]), (e[0], e[1] + k), (e[0] + k, e[1] + k / 8), (e[0] + k / 8, e[1] - k), (x + w / 2, y + h / 2), (dyadic(rng), dyadic(rng)), rng.choice(sp)])
+        pts = [e, nx] + [(dyadic(rng), dyadic(rng)) for _ in range(rng.randint(0, 3))]
+        style, port = rng.choice(combos)
+        cases.append({"box": b, "port": port, "style": style, "pts": pts, "end": rng.choice(["first", "last"]), "gen": "dyadic"})
+    return cases
+
+
+def snapend_monitor(rig: EdgeRig, c: dict, res, v) -> list[tuple[str, str]]:
+    st = c["style"]
+    if res[0] == "e":
+        return [(f"snaptarget|{st}|raises|{res[1]}", f"snaptarget raised {res[1]}")]
+    pts = res[1]
+    if any(not math.isfinite(cc) for p in pts for cc in p):
+        return [(f"snaptarget|{st}|non-finite", f"points {pts}")]
+    bad = []
+    n_in = len(c["pts"])
+    if len(pts) not in (n_in, n_in + 1) or not pts_close(pts[len(pts) - n_in + 1:], [(F(a), F(b)) for a, b in c["pts"][1:]]):
+        bad.append((f"snaptarget|{st}|changed-inner-points", f"{[tuple(map(str, p)) for p in c['pts']]} -> {pts}"))
+    cls = end_class(c["box"], c["port"], pts[0], st, pts[1], eq_source=tuple(c["pts"][0]) == tuple(c["pts"][1]))
+    if cls is not None:
+        sig = f"snaptarget|tree|end-off-side|{cls}" if st == "tree" else f"snaptarget|{st}|end-off-outline"
+        bad.append((sig, f"end {pts[0]} of {pts} not on the {'top/bottom side' if st == 'tree' else 'outline'} of {[str(x) for x in c['box']]}{' (port)' if c['port'] else ''}"))
+    moved = rig.snapend(c, v)
+    if moved[0] == "e":
+        bad.append((f"snaptarget|{st}|translated|raises|{moved[1]}", f"translated by {v}: raised {moved[1]}"))
+    elif not (len(moved[1]) == len(pts) and all(abs(F(a[0]) + v[0] - F(b[0])) <= PTOL and abs(F(a[1]) + v[1] - F(b[1])) <= PTOL for a, b in zip(pts, moved[1]))):
+        bad.append((f"snaptarget|{st}|translated|not-equivariant", f"{pts} translated by {v} became {moved[1]}"))
+    return bad
+
+
+def edge_chain(ctx: Ctx, out: Outcome, diagram) -> None:
+    rig = EdgeRig(diagram)
+    rng = ctx.rng
+    vecs = [(1, 0), (0, -1), (-10000, -10000), (7, 10000), (-3333, 4)]
+    no_model = os.environ.get("VERIF_NO_MODEL") == "1"
+    dist: dict[str, int] = {}
+    # --- whole generic_factory
+    cases = edge_cases(ctx)
+    answers = [] if no_model else common.model([edge_req(c) for c in cases], driver="Geom")
+    for k, c in enumerate(cases):
+        res = rig.edge(c)
+        v = vecs[k % len(vecs)] if k % 2 else (rng.randint(-10000, 10000), rng.randint(-10000, 10000))
+        rep = {"kind": "edge", **case_json(c), "v": list(v)}
+        for sig, what in edge_monitor(rig, c, res, v):
+            out.find(sig, what, rep)
+            out.hit("monitor:" + sig)
+        if answers:
+            compare_points(out, "edge." + c["style"], rep, res, answers[k], "edge")
+            out.traces_validated += 1
+        key = f"edge:{c['style']}:{c['gen']}:{'port' if c['sport'] or c['tport'] else 'box'}"
+        dist[key] = dist.get(key, 0) + 1
+        out.case(("edge", str(rep)), rep if k % 499 == 0 else None, nontrivial=c["gen"] != "general" or c["pos"] != "any")
+    # --- one snaptarget call
+    cases = snapend_cases(ctx)
+    reqs = [{"op": "snapEnd", "box": [q(x) for x in c["box"]], "port": c["port"], "style": c["style"], "pts": [[q(a), q(b)] for a, b in c["pts"]]} for c in cases]
+    answers = [] if no_model else common.model(reqs, driver="Geom")
+    for k, c in enumerate(cases):
+        res = rig.snapend(c)
+        v = vecs[k % len(vecs)]
+        rep = {"kind": "snapend", **case_json(c), "v": list(v)}
+        for sig, what in snapend_monitor(rig, c, res, v):
+            out.find(sig, what, rep)
+            out.hit("monitor:" + sig)
+        if answers:
+            compare_points(out, "snapEnd." + c["style"], rep, res, answers[k], "snapEnd:" + ("src" if c["end"] == "first" else "tgt"))
+            out.traces_validated += 1
+        key = f"snapEnd:{c['style']}:{c['gen']}:{c['end']}:{len(c['pts'])}pts"
+        dist[key] = dist.get(key, 0) + 1
+        out.case(("snapend", str(rep)), rep if k % 4999 == 0 else None, nontrivial=True)
+    out.extra["edge_chain_inputs"] = dict(sorted(dist.items()))
+    if not no_model:
+        hit = {b for b in out.branches if b.startswith("edge:")}
+        hit2 = {b.split(":", 2)[2] for b in out.branches if b.startswith("snapEnd:")}
+        out.extra["edge_chain_branches"] = {
+            "generic_factory_stream": {"expected": len(EDGE_BRANCHES), "hit": sum(1 for b in EDGE_BRANCHES if "edge:" + b in hit),
+                                       "missing": [b for b in EDGE_BRANCHES if "edge:" + b not in hit]},
+            "snaptarget_stream": {"missing": sorted({b.split(".", 1)[1] for b in EDGE_BRANCHES if "." in b} - hit2)},
+            "unreachable_arms": EDGE_BRANCHES_UNREACHABLE,
+        }
+
+
 # ------------------------------------------------------------------ (b) parser
 
 
@@ -947,6 +1303,7 @@ def run(ctx: Ctx) -> Outcome:
     lattice(ctx, out, diagram)
     kernel_random(ctx, out, diagram)
     kernel_misc(ctx, out, diagram)
+    edge_chain(ctx, out, diagram)
     parser_run(ctx, out)
     out.exhaustive = True  # the integer lattice named in RULE is enumerated completely
     import capellambse.diagram._json_enc as je
@@ -970,6 +1327,15 @@ def replay(ctx: Ctx, case: dict):
         res = impl_snap(diagram, box, case["port"], p, s, case["style"])
         sig = classify_snap([F(v) for v in case["box"]], [F(v) for v in case["p"]], [F(v) for v in case["s"]], case["style"], res)
         return f"{sig}: Box.vector_snap -> {res[1]}" if sig else None
+    if kind in ("edge", "snapend"):
+        rig = EdgeRig(diagram)
+        c = case_unjson({k: v for k, v in case.items() if k != "kind"})
+        v = tuple(int(x) for x in c["v"])
+        if kind == "edge":
+            bad = edge_monitor(rig, c, rig.edge(c), v)
+        else:
+            bad = snapend_monitor(rig, c, rig.snapend(c), v)
+        return "; ".join(f"{sig}: {what}" for sig, what in bad[:3]) or None
     if kind in ("parse", "sound", "translate", "move"):
         rig = ParserRig()
         model = rig.load(case["model"])
